@@ -100,6 +100,59 @@ CLAIMED = {
             "on both rows. Tie: pinch_idx compared on random columns (tolerance-edge values classified fragile), and every reported "
             "temp_pinch is judged in coqc against the exact residual at the reported temperatures and at every stream/utility end point.",
             "As C01; 'zero' on the implementation side means |exact residual| <= 2e-6 + 1e-9*scale; open finding D18 (all-zero residual)."),
+    "C14": ("DESIGN.md 8/C14",
+            "Theorems (closed): stage guards return Ok on every input the earlier stages can produce (CP defined for every stream any setter "
+            "sequence can build, linear_interpolation raises exactly when x1 = x2 and its call site never does, option sanitiser keeps "
+            "DT_CONT >= 0 and DT_PHASE_CHANGE > 0, every utility has a non-zero span after completion, the grid holds two temperatures, gaps "
+            "above tol pass the infeasible-interval guard); default utilities lie wholly outside the process range and inside the envelope, "
+            "the +-1e9 sentinel is used exactly when a side is empty; the dispatch over every well-nested zone tree returns exactly one DI "
+            "record per zone; D30 and D53 follow from the call order (refuted theorems). The full `service_total` statement is OPEN (the "
+            "pipeline is not composed into one Gallina function): that clause is carried by wf_output_b evaluated INSIDE coqc on the "
+            "implementation's own output for every generated problem x option combination (returns, schema-valid, JSON-serialisable, finite, "
+            "one DI record per zone, temperatures within the widened envelope, identical on repeat).",
+            "Open findings D30, D31, D42, D43, D53 (narrow triggers). Options reaching unmodelled code (heat pumps, exergy, turbine) are "
+            "exercised on a small budget for totality only and reported separately (not claimed). pydantic/json trusted."),
+    "C15": ("DESIGN.md 8/C15",
+            "Theorems over R on generated definitions (costing.py translated by ast): capital cost = N(a + b(A/N)^c), annualised cost applies "
+            "the capital-recovery factor whose discounted annuities sum to one (induction, integer life; real-valued life partial), both "
+            "increase with area. Over Q (closed): the area target is the sum over the code's own enthalpy intervals of duty x weighted "
+            "resistances / LMTD, is positive, balanced spans are equal (LMTD abstract with min/mean hypotheses). Equality with the "
+            "independent interval sum recomputed in Q from streams and utility duties is evaluated in coqc on every run (stage calls on "
+            "captured arguments and end-to-end).",
+            "Axioms: the standard library's real-number axioms (ClassicalDedekindReals.sig_forall_dec, sig_not_dec, functional_extensionality_dep, "
+            "Classical_Prop.classic) via Reals/Coquelicot/Interval. get_temperature_driving_forces is not modelled; open finding D36."),
+    "C16": ("DESIGN.md 8/C16",
+            "Theorems (closed) over strings of all 256 code points: whenever sheet-name allocation returns, names are pairwise distinct, not "
+            "already used, 1..31 characters, free of : \\ / ? * [ ] and of leading/trailing apostrophes; allocation succeeds whenever fewer "
+            "than 998 of a label's alternatives are taken and fails only beyond that bound (tight, witness proved); label/zone/name "
+            "normalisation idempotent; get_value cases; the PinchProblem wrapper refines the service over ALL load/target/export sequences "
+            "(cached second target, load resets cache and project name; pre-repair machines refuted). Constants (31, range(2,1000), the regex "
+            "class, suffix format) are regenerated from the AST. The codec half is correspondence: every generated problem is materialised "
+            "as dict, validated model, value-with-unit, JSON file, CSV directory, CSV pair and .xlsx and run through service and wrapper "
+            "(12 runs per problem), exports are read back with openpyxl.",
+            "pandas/openpyxl/json trusted; .xlsb cannot be written offline; open findings D21 (beyond the bound) and D41 (numeric-looking names "
+            "in the CSV channel)."),
+    "C18": ("DESIGN.md 8/C18",
+            "Theorems (closed): first law and COP relation of the metrics for all state-point enthalpies with H3 <= H0; stream duties, "
+            "monotonicity and request-order independence for all enthalpy-monotone profiles and ALL request sequences (pre-repair stateful "
+            "machine refuted); second-law, throttle and saturation clauses for every property library satisfying the stated hypotheses "
+            "(LibHyps, shown satisfiable); Carnot first law. Tie per run: the implementation is compared inside coqc with the model "
+            "instantiated with an independent CoolProp table (16 state-point values, metrics, every emitted stream for every request "
+            "sequence) and the 14-clause predicate is evaluated on the implementation's own output; constants regenerated from the AST.",
+            "CoolProp trusted as oracle (LibHyps instances sampled at 1e-7 on the states of each case; cases where an instance fails are "
+            "skipped and counted); float vs Q 1e-9 (balance, COP, order) / 1e-6 (entropy, pressure); open findings D35, D35b, D50."),
+    "C20": ("DESIGN.md 8/C20",
+            "Theorems over R on definitions GENERATED from heat_exchanger.py by a fail-closed symbolic executor over the Python ast (whole "
+            "HX_Eff / HX_NTU with label normalisation, every branch, multipass, the 20-term series, LMTD with its guards and np.isclose): all "
+            "16 label forms reach their own branch (finite, exhaustive); NTU(eff(N)) = N and back on the reachable range for the six "
+            "closed-form arrangements incl. c = 0 and c = 1 and any pass count; effectiveness in (0,1), strictly increasing in NTU, equal to "
+            "1 - exp(-NTU) at c = 0; parallel flow <= counter flow; secant post-condition; LMTD between min and mean, refusal, symmetry (exact "
+            "when both orders take the same isclose branch). D15 and D34 are refuted theorems with interval-checked witnesses. Tie: 676 "
+            "interval proofs |f(x) - python value| <= 1e-9 regenerate on every run, dispatch observed by line tracing, and a numeric sweep "
+            "(arrangement x label form x 40 NTU x 21 c x 4 passes) judged in coqc on exact rationals supports the search for failing inputs.",
+            "Axioms: the standard library's real-number axioms plus PrimInt63/Uint63 primitives used by Interval in the two refutations. "
+            "eff <= counter-flow for CrFMUmax/CrFMUmin/ShellTube and range/monotonicity of the CrFUU series are carried by the sweep only "
+            "(OPEN). coqchk on C20 exceeds 30 min (re-checks Interval/Flocq/Coquelicot) and is disabled for this property."),
     "C19": ("DESIGN.md 8/C19",
             "Theorems (closed under the global context): for every constructor argument tuple and every finite setter sequence the "
             "Stream model satisfies CP*span = duty, t_min < t_max, shifted bounds by kind, htr*htc = 1 and kind follows the "
